@@ -414,8 +414,30 @@ NameOffset(b, kc) == CASE kc = "v" -> 0 [] kc = "e" -> b.sig.n [] kc = "f" -> b.
                        [] kc = "c" -> b.sig.n + b.sig.e + b.sig.f
 KindCount(b, kc)  == CASE kc = "v" -> b.sig.n [] kc = "e" -> b.sig.e [] kc = "f" -> b.sig.f [] kc = "c" -> b.sig.i
 KindTable(b, kc)  == CASE kc = "v" -> b.nodal [] kc = "e" -> b.edge [] kc = "f" -> b.facet [] kc = "c" -> b.interior
-NameOfRow(b, kc, r) == b.names[NameOffset(b, kc) + r]
-AllNames(b) == {b.names[i] : i \in 1..(b.sig.n + b.sig.e + b.sig.f + b.sig.i)}
+\* Composite elements (b.comp = [sigs, names]: signature and own names of every component): the name of a row is decided
+\* from the COMPONENT it belongs to -- rows of a kind list the components in turn, the q-th row of kind K of component c
+\* is called <component's own name of that row>^c (element_composite.py:30-46) -- not from the composite's own table
+\* b.names, which is itself under test (clause CompositeNames).
+HasComp(b) == "comp" \in DOMAIN b /\ b.comp.sigs # <<>>
+CompKindCount(sg, kc) == CASE kc = "v" -> sg.n [] kc = "e" -> sg.e [] kc = "f" -> sg.f [] kc = "c" -> sg.i
+CompKindOffset(sg, kc) == CASE kc = "v" -> 0 [] kc = "e" -> sg.n [] kc = "f" -> sg.n + sg.e [] kc = "c" -> sg.n + sg.e + sg.f
+CompNamesOfKind(b, kc) ==
+  FlattenSeq([c \in DOMAIN b.comp.sigs |->
+     [q \in 1..CompKindCount(b.comp.sigs[c], kc) |->
+        b.comp.names[c][CompKindOffset(b.comp.sigs[c], kc) + q] \o "^" \o ToString(c)]])
+CompNames(b) == CompNamesOfKind(b, "v") \o CompNamesOfKind(b, "e") \o CompNamesOfKind(b, "f") \o CompNamesOfKind(b, "c")
+CompWellNamed(b) ==
+  /\ Len(b.comp.names) = Len(b.comp.sigs)
+  /\ \A c \in DOMAIN b.comp.sigs : Len(b.comp.names[c]) >= b.comp.sigs[c].n + b.comp.sigs[c].e + b.comp.sigs[c].f + b.comp.sigs[c].i
+  /\ b.sig.n = SumSeq([c \in DOMAIN b.comp.sigs |-> b.comp.sigs[c].n])
+  /\ b.sig.e = SumSeq([c \in DOMAIN b.comp.sigs |-> b.comp.sigs[c].e])
+  /\ b.sig.f = SumSeq([c \in DOMAIN b.comp.sigs |-> b.comp.sigs[c].f])
+  /\ b.sig.i = SumSeq([c \in DOMAIN b.comp.sigs |-> b.comp.sigs[c].i])
+EffNames(b) == IF HasComp(b) /\ CompWellNamed(b) THEN CompNames(b) ELSE b.names
+\* the composite's own table says the same
+CompositeNames(b) == CompWellNamed(b) /\ SubSeq(b.names, 1, b.sig.n + b.sig.e + b.sig.f + b.sig.i) = CompNames(b)
+NameOfRow(b, kc, r) == EffNames(b)[NameOffset(b, kc) + r]
+AllNames(b) == {EffNames(b)[i] : i \in 1..(b.sig.n + b.sig.e + b.sig.f + b.sig.i)}
 Kinds == {"v", "e", "f", "c"}
 
 BasisWellFormed(b) ==
@@ -515,7 +537,9 @@ QueryClauses(b, q) ==
                                   DictGot(q.res[j], nm) = DictGot(q.res[1], nm)
                           ELSE VSet(q.res[j].out) = VSet(q.res[1].out)
            r1 == [c \in {PrimaryClause(q)} |-> first]
-       IN [WellFormed |-> TRUE] @@ r1 @@ (IF Len(q.res) >= 2 THEN [SelectorFormsAgree |-> agree] ELSE <<>>)
+           \* events flagged strlist = 1 hold the same name filter given as a plain string and as a one-element list
+           aname == IF "strlist" \in DOMAIN q /\ q.strlist = 1 THEN "StringAndListFormsAgree" ELSE "SelectorFormsAgree"
+       IN [WellFormed |-> TRUE] @@ r1 @@ (IF Len(q.res) >= 2 THEN [c \in {aname} |-> agree] ELSE <<>>)
 
 \* complement query: args = the index arrays handed over
 ComplementClauses(b, q) ==
